@@ -19,7 +19,7 @@ def declare(reg):
         (r".*active_mailboxes_lock", "lock"),
         (r"asyncio\.timeout\(.*\)", "timeout"),
         (r"TemporaryDirectory\(.*\)", "opaque"),
-        (r"cmd\.ready_and_okay\(.*\)", "ready"),
+        (r"(\w+_)?cmd\.ready_and_okay\(.*\)", "ready"),
     ]
     # what _p_msg_set produces: ints, "*", and (a, b) with a, b in int | "*"
     reg.union("IntOrStar", ["int", "str"])
